@@ -10,8 +10,11 @@ truncated" exit is a property of the value log, not of the framing).  `parseExpo
 parsing part of `ReplicateTx` statement by statement.  The Go code walks an absolute index `i`
 through `exportedTx` and tests `len(exportedTx) < i + k`; the model walks the not yet consumed
 suffix `r = exportedTx[i:]` and tests `r.length < k` (the same predicate, `i ≤ len` being an
-invariant of the loop).  Go run-time panics (`binary.BigEndian.UintNN` on a short slice, `v[0]`
-on an empty slice) are the explicit outcome `XErr.panic`.
+invariant of the loop).  Every length field is read behind its own length check (`vLen` after the
+kv-metadata and `tLen` got theirs with the repair of the framing, and an empty trailer value is
+refused before `v[0]`): the parser has no run-time panic left — `parseExported_never_panics` in
+`Tx/Proofs/ExportRT.lean`.  The outcome `XErr.panic` stays in the vocabulary for the code behind the
+parser (`precommit`: "missing tx hash calculation method", a panicking `Metadata.Bytes()`).
 Header and metadata codecs are C15's models (`HeaderCodec.lean`, `Metadata.lean`).  Core Lean only.
 -/
 import ImmuModel.Tx.HeaderCodec
@@ -112,9 +115,9 @@ def parseEntries : Nat → Bytes → Except XErr (List PEntry × Bytes)
           | .error e => .error e
           | .ok md =>
             let r4 := r3.drop mdLen
-            -- `binary.BigEndian.Uint32(exportedTx[i:])`: only `lszSize` bytes were guaranteed BEFORE
-            -- the metadata was skipped, so this read panics on a short buffer
-            if r4.length < Gen.storeLszSize then .error .panic
+            -- `if len(exportedTx) < i+lszSize { return nil, ErrIllegalArguments }` (the bound checked
+            -- before the key did not account for the metadata), then `Uint32(exportedTx[i:])`
+            if r4.length < Gen.storeLszSize then .error .illegal
             else
               let vLen := beVal (r4.take Gen.storeLszSize)
               let r5 := r4.drop Gen.storeLszSize
@@ -124,17 +127,28 @@ def parseEntries : Nat → Bytes → Except XErr (List PEntry × Bytes)
                 | .error e => .error e
                 | .ok (es, rest) => .ok ({ key := key, md := md, payload := r5.take vLen } :: es, rest)
 
-/-- The optional trailer: `none` bytes left = no trailer (not truncated). -/
+/-- The optional trailer: no bytes left = no trailer (not truncated).
+```go
+	if i < len(exportedTx) {
+		if len(exportedTx) < i+sszSize { return nil, ErrIllegalArguments }
+		tLen := int(binary.BigEndian.Uint16(exportedTx[i:])); i += sszSize
+		if len(exportedTx) < i+tLen { return nil, ErrIllegalArguments }
+		v := exportedTx[i : i+tLen]
+		if len(v) == 0 || v[0] > 1 { return nil, ErrIllegalTruncationArgument }
+		isTruncated = v[0] == 1; i += tLen
+	}
+	if i != len(exportedTx) { return nil, ErrIllegalArguments }
+``` -/
 def parseTrailer (r : Bytes) : Except XErr Bool :=
   if r.length = 0 then .ok false
-  else if r.length < Gen.storeSszSize then .error .panic     -- Uint16 on a 1-byte slice
+  else if r.length < Gen.storeSszSize then .error .illegal   -- a single byte after the entries
   else
     let tLen := beVal (r.take Gen.storeSszSize)
     let r1 := r.drop Gen.storeSszSize
     if r1.length < tLen then .error .illegal
     else
       match r1.take tLen with
-      | [] => .error .panic                                    -- `v[0]` with `tLen = 0`
+      | [] => .error .illegalTruncation                        -- `len(v) == 0` (`tLen = 0`)
       | x :: _ =>
         if x.toNat > 1 then .error .illegalTruncation
         else if r1.length ≠ tLen then .error .illegal            -- `i != len(exportedTx)`
